@@ -38,6 +38,7 @@ type Contract struct {
 	Vars        [][2]string // lemma variables: name, type
 	Pure        bool
 	MayPanic    bool
+	AssumeFrame bool
 	DeadCode    map[string]bool
 	AllocBound  ast.Expr
 	Props       []string
@@ -288,6 +289,8 @@ func parseContractFile(path, pkg string) (*ContractFile, error) {
 			cur.HasModifies = true
 		case "maypanic":
 			cur.MayPanic = true
+		case "assume-frame":
+			cur.AssumeFrame = true
 		case "deadcode":
 			if cur.DeadCode == nil {
 				cur.DeadCode = map[string]bool{}
